@@ -826,7 +826,10 @@ fn library_messages(ctx: &mut Ctx, w: &World) {
     let recipients_pool: Vec<usize> = (0..w.pool.len()).filter(|&k| !w.pool[k].name.starts_with("decoy")).collect();
     for i in 0..n_msgs {
         let v2 = i % 2 == 1;
-        let sym = SYMS[i % 3];
+        // (SEIPDv1 with every cipher: the v3 PKESK of an X25519 / X448 recipient names the cipher in the clear)
+        use SymmetricKeyAlgorithm as S;
+        let v1_syms = [S::AES128, S::TripleDES, S::AES256, S::CAST5, S::Camellia128, S::Blowfish, S::AES192, S::Twofish, S::Camellia256, S::IDEA, S::Camellia192];
+        let sym = if v2 { SYMS[i % 3] } else { v1_syms[(i / 2) % v1_syms.len()] };
         let aead = [AeadAlgorithm::Ocb, AeadAlgorithm::Eax, AeadAlgorithm::Gcm][(i / 2) % 3];
         let nk = if i < 12 { 1 + i % 4 } else { ctx.rng.gen_range(0..=4usize) };
         let np = if i < 12 { i % 4 } else if nk == 0 { ctx.rng.gen_range(1..=3usize) } else { ctx.rng.gen_range(0..=3usize) };
@@ -1080,6 +1083,29 @@ fn crosscheck_oracle(ctx: &mut Ctx, w: &World, a: &Assembled) {
         secrets.push((Sec::Sk(k, 202 + i), vec![202 + i]));
     }
     secrets.sort_by_key(|s| match &s.0 { Sec::Key(k) => *k, Sec::Pw(p) => 50 + *p, Sec::Sk(_, t) => *t });
+    // ONE presented secret that opens several session-key packets with different session keys (two
+    // PKESKs addressed to subkeys of the same certificate, two SKESKs under the same password) is a
+    // conflict as well
+    for (s1, y1) in &secrets {
+        let mut distinct = y1.clone();
+        distinct.sort_unstable();
+        distinct.dedup();
+        if distinct.len() < 2 || distinct.iter().any(|&x| x >= 100) {
+            continue;
+        }
+        let mut rc = RingCase { keys: vec![], kpws: all_kpws(), mpws: vec![], sks: vec![], ae: false, ga: false };
+        match s1 {
+            Sec::Key(k) => rc.keys.push(*k),
+            Sec::Pw(p) => rc.mpws.push(*p),
+            Sec::Sk(k, _) => rc.sks.push(k.clone()),
+        }
+        let (out, d) = ring_case(ctx, w, &a.msg, &rc);
+        let req = request_line(w, &a.msg, &rc);
+        let ok = matches!(out, Outcome::Err(ref c) if c != "panic");
+        ctx.oracle("crosscheck_conflict", "Message::decrypt_the_ring(abort_early=false), one secret yielding two session keys", &req, ok,
+            &format!("{} specs={:?}: {}", a.msg.label, a.specs, out_text(&out, &d)));
+        ctx.stat("crosscheck:one_secret_two_session_keys");
+    }
     // the data key's tag, so that "same key" is recognised across kinds
     let ed_tag: Option<usize> = None;
     let _ = ed_tag;
@@ -1199,6 +1225,12 @@ fn assembled_messages(ctx: &mut Ctx, w: &World) {
         (false, vec![Pk { key: a, sk: 0, addr: Own }, Pk { key: a, sk: 0, addr: Anon }, Sk { pw: 0, sk: 0, kind: 1 }], EdKey::Sk(0), "asm-v1:same"),
         // one key, two ESKs with different session keys
         (false, vec![Pk { key: a, sk: 0, addr: Own }, Pk { key: a, sk: 1, addr: Anon }], EdKey::Sk(0), "asm-v1:1key-2sk"),
+        // ... both ADDRESSED to the key (a session-key packet spliced in from another message to the same
+        // recipient), the one that opens the data first / last
+        (false, vec![Pk { key: a, sk: 0, addr: Own }, Pk { key: a, sk: 1, addr: Own }], EdKey::Sk(0), "asm-v1:1key-2sk-addressed"),
+        (false, vec![Pk { key: a, sk: 1, addr: Own }, Pk { key: a, sk: 0, addr: Own }], EdKey::Sk(0), "asm-v1:1key-2sk-addressed-rev"),
+        (true, vec![Pk { key: d6, sk: 0, addr: Own }, Pk { key: d6, sk: 1, addr: Own }], EdKey::Sk(0), "asm-v2:1key-2sk-addressed"),
+        (false, vec![Pk { key: r, sk: 0, addr: Own }, Pk { key: b, sk: 0, addr: Own }, Pk { key: r, sk: 1, addr: Own }], EdKey::Sk(0), "asm-v1:1key-2sk-addressed-apart"),
         // recipient field names somebody else
         (false, vec![Pk { key: a, sk: 0, addr: Named(dec) }, Pk { key: b, sk: 0, addr: Own }], EdKey::Sk(0), "asm-v1:named-decoy"),
         (true, vec![Pk { key: d6, sk: 0, addr: Named(dec6) }, Pk { key: e6, sk: 0, addr: Named(a) }], EdKey::Sk(0), "asm-v2:named-decoy"),
